@@ -473,8 +473,20 @@ class PathEval:
                     self.assign(it.optional_vars, v, p)
             return self.block(s.body, [p])
         if isinstance(s, ast.Try):
+            # handlers: the protected block may raise (taken here at its first statement, i.e. with
+            # the state before the block); the handler's body then runs instead of the rest
+            handled: List[Path] = []
+            for h in s.handlers:
+                q = p.fork()
+                what = ast.unparse(s.body[0]).splitlines()[0][:60] if s.body else "..."
+                exc = ast.unparse(h.type) if h.type is not None else "BaseException"
+                q.conds = tuple(q.conds) + ((f"raises[{exc}]({what})", True),)
+                if h.name:
+                    q.env[h.name] = ast.Name(id=f"{h.name}__exc", ctx=ast.Load())
+                handled += self.block(h.body, [q])
             out = self.block(s.body, [p])
             out = self.block(s.orelse, out) if s.orelse else out
+            out = out + handled
             return self.block(s.finalbody, out) if s.finalbody else out
         if isinstance(s, (ast.FunctionDef, ast.AsyncFunctionDef, ast.ClassDef)):
             p.env[s.name] = ast.Name(id=f"{s.name}__def", ctx=ast.Load())
